@@ -43,7 +43,7 @@ def main(argv=None):
     limit = mod.time_limit(tier) if hasattr(mod, 'time_limit') else (600 if tier == 'quick' else 7200)
     tmp = tempfile.mkdtemp(prefix='vfrun_%s_' % prop, dir=os.environ.get('VERIF_TMP'))
     procs = []
-    env = common.child_env(VERIF_TMP=tmp, VERIF_TIER=tier)
+    env = common.child_env(VERIF_TMP=tmp, VERIF_TIER=tier, VERIF_T0=t0, VERIF_LIMIT=limit)
     if getattr(mod, 'HASHSEED_FREE', False):
         env.pop('PYTHONHASHSEED', None)
     for i in range(nworkers):
